@@ -12,7 +12,7 @@ LEVEL = "model_checking"
 
 def judge_state(case, o):
     if not case["ok"]:
-        return "undecided" if case["fok"] else ("ok" if o["err"] else "accepted-unequal-inner")
+        return "ok" if o["err"] else "accepted-unequal-inner"
     if o["err"]:
         return "error-on-valid"
     if o["jobs"] != case["jobs"]:
@@ -38,8 +38,6 @@ def expected_api(case):
 
 def judge_api(case, o):
     if not case["ok"]:
-        if case["fok"]:
-            return "undecided"
         if not o["err"]:
             return "accepted-unequal-inner"
         return "ok" if not o["bodies"] else "jobs-ran-before-rejection"
